@@ -206,6 +206,7 @@ static void run_body(ScenRt& r, pika::stop_token st = pika::stop_token())
             }
             if (must_deliver) r.missed_delivery.store(idx + 1);
             ++idx;
+            G().progress.fetch_add(1);
         }
     }
     catch (pika::thread_interrupted const&)
@@ -362,6 +363,7 @@ static void controller(ScenRt& r)
     }
     }
     r.done.store(1);
+    G().progress.fetch_add(1);
 }
 
 static Outcome run(tape_t const& tape)
@@ -388,6 +390,7 @@ static Outcome run(tape_t const& tape)
                    << " body_finished=" << rs[i]->body_finished.load() << " interrupted_at=" << rs[i]->interrupted_at.load() << "; ";
         return os.str();
     };
+    G().livelock_after_samples = 250;    // 10 s of full-speed activations without a single body op / scenario finishing
     Quiescence q;
     q.start();
     for (auto& up : rs)
